@@ -53,7 +53,7 @@ func verifArbSample(kind int) verifSample {
 		if kind == kFlowUnkRec {
 			s.urFormat = verifNondetU32()
 			verifAssume(verifAll(s.urFormat != SFDataRawHeader, s.urFormat != SFDataExtSwitch, s.urFormat != SFDataExtRouter))
-			s.body = verifNondetBytes(4 * verifCase(3))
+			s.body = verifNondetBytes(4 * verifCase(verifParam("ubodies", 3)))
 		}
 	case kCounterVlan, kCounterUnk:
 		s.vlan = VlanCounters{verifNondetU32(), verifNondetU64(), verifNondetU32(), verifNondetU32(), verifNondetU32(), verifNondetU32()}
@@ -63,16 +63,16 @@ func verifArbSample(kind int) verifSample {
 			s.urFormat = verifNondetU32()
 			verifAssume(verifAll(s.urFormat != SFGenericInterfaceCounters, s.urFormat != SFEthernetInterfaceCounters, s.urFormat != SFTokenRingInterfaceCounters,
 				s.urFormat != SF100BaseVGInterfaceCounters, s.urFormat != SFVLANCounters, s.urFormat != SFProcessorCounters))
-			s.body = verifNondetBytes(4 * verifCase(3))
+			s.body = verifNondetBytes(4 * verifCase(verifParam("ubodies", 3)))
 		}
 	case kUnknown:
 		s.format = verifNondetU32()
 		verifAssume(verifAll(s.format>>12 == 0, s.format != DataFlowSample, s.format != DataCounterSample))
-		s.body = verifNondetBytes(4 * verifCase(3))
+		s.body = verifNondetBytes(4 * verifCase(verifParam("ubodies", 3)))
 	case kVendor:
 		s.format = verifNondetU32()
 		verifAssume(s.format>>12 != 0)
-		s.body = verifNondetBytes(4 * verifCase(3))
+		s.body = verifNondetBytes(4 * verifCase(verifParam("ubodies", 3)))
 	}
 	return s
 }
